@@ -34,12 +34,20 @@ def valid_value(value, type_hint, strict_callables: bool = True) -> bool:
         return isinstance(value, type_hint)
     except TypeError:
         # Subscripted generics cannot be used with class and instance checks
+        if typing.get_origin(type_hint) is typing.Annotated:
+            # The metadata says nothing about values, and typeguard trips over
+            # `Annotated[Any, ...]`
+            type_hint = type_hint.__origin__
         try:
             # typeguard handles this case
             check_type(value, type_hint)
             return True
         except TypeCheckError:
             # typeguard raises an error on a failed check
+            return False
+        except TypeError:
+            # typeguard cannot evaluate the hint itself (e.g. `type[list[int]]`);
+            # a value we cannot vouch for is not valid, but asking must not raise
             return False
 
 
